@@ -254,7 +254,7 @@ class HTTPChannel(wasyncore.dispatcher):
             try:
                 self._flush_some(do_close=do_close)
 
-                if self.total_outbufs_len < self.adj.outbuf_high_watermark:
+                if self.total_outbufs_len <= self.adj.outbuf_high_watermark:
                     self.outbuf_lock.notify()
             finally:
                 self.outbuf_lock.release()
